@@ -10,7 +10,7 @@ from ..terms import A, C, F, V, call, conj, TRUE, CUT, show_program, show_term
 
 ID = 'C08'
 LEVEL = 'model_checking'
-RULE = ('every history of depth <= D over 25 events (load of a self-recursive predicate S7 whose base case comes from another script S8 or from a dynamic fact; 17 + start / step / close of a call p(X) that stays suspended across the other events and must keep the resolution it had when it was made), from the empty engine and from 4 non-initial states (combined definitions, a Python predicate plus a script, facts between two loads, the recursive script), plus a 12-event core one step deeper, plus the full alphabet from the empty engine with every script loaded through load_script_from_file from ONE path that is rewritten before each load: register_function for p with inferred / explicit (p/2) / variadic '
+RULE = ('every history of depth <= D over 26 events (load of a script S9 that defines predicates named like API functions; load of a self-recursive predicate S7 whose base case comes from another script S8 or from a dynamic fact; 17 + start / step / close of a call p(X) that stays suspended across the other events and must keep the resolution it had when it was made), from the empty engine and from 4 non-initial states (combined definitions, a Python predicate plus a script, facts between two loads, the recursive script), plus a 12-event core one step deeper, plus the full alphabet from the empty engine with every script loaded through load_script_from_file from ONE path that is rewritten before each load, plus the full alphabet (from the state Python p/1 + S1) with every Python predicate registered as a callable OBJECT that is false in a boolean context: register_function for p with inferred / explicit (p/2) / variadic '
         'arity and for q/1; load of script S1 (p/1 facts), S2 (p/1 with a cut in its first clause), S3 (p/2 and q(X) :- '
         'p(X)), S6 (names that collide with context keys: once_1/0, once_1/1, p_n/1, call_n/0, foo_1/0 next to foo/1) each '
         'with overwrite on and off; load of a text that is not Python (S4) and of a text that defines p_1 and q_1 and then '
@@ -42,7 +42,10 @@ S7 = [(F('dec', A('two'), A('one')), TRUE), (F('dec', A('one'), A('zero')), TRUE
 S8 = [(F('up', A('s8'), A('zero')), TRUE)]
 S4_PY = 'def p_1(arg1):\n  yield False\n  )( this is not python\n'
 S5_PY = 'def p_1(arg1):\n  yield False\ndef q_1(arg1):\n  yield False\nundefined_name_so_this_raises\n'
-SCRIPTS = {'S1': S1, 'S2': S2, 'S3': S3, 'S6': S6, 'S7': S7, 'S8': S8}
+# predicates named like functions of the engine's API: such names are reserved, the script loads but
+# the predicates are never callable (checked at the end of every history, at every arity 0..2)
+S9 = [(F('atom', A('s9')), TRUE), (F('variable', A('s9'), A('s9')), TRUE), (A('query'), TRUE)]
+SCRIPTS = {'S1': S1, 'S2': S2, 'S3': S3, 'S6': S6, 'S7': S7, 'S8': S8, 'S9': S9}
 
 EVENTS = [('reg', 'p', 1, None), ('reg', 'p', 2, 2), ('reg', 'p', 'n', -1), ('reg', 'q', 1, None),
           ('load', 'S1', True), ('load', 'S1', False), ('load', 'S2', True), ('load', 'S2', False),
@@ -51,7 +54,8 @@ EVENTS = [('reg', 'p', 1, None), ('reg', 'p', 2, 2), ('reg', 'p', 'n', -1), ('re
           ('assert', F('p', A('x'))), ('assert', F('p', A('x'), A('y'))), ('clear',),
           # a call p(X) that stays suspended while later events happen (it was resolved when made)
           ('start',), ('step',), ('close',), ('drain',),
-          ('load', 'S7', True), ('load', 'S7', False), ('load', 'S8', False), ('assert', F('up', A('x'), A('zero')))]
+          ('load', 'S7', True), ('load', 'S7', False), ('load', 'S8', False), ('assert', F('up', A('x'), A('zero'))),
+          ('load', 'S9', False)]
 CORE_EVENTS = [0, 2, 4, 5, 7, 9, 13, 14, 16, 17, 18, 20]
 # histories also start from non-initial states (event prefixes executed first)
 PREFIXES = [(), (5, 7), (0, 5), (4, 14, 5), (21,)]   # nothing | S1+S2 combined | python p/1 + S1 | S1, fact p(x), S1 again
@@ -98,7 +102,31 @@ def py_pred(yp, name, n):
         def pred(arg1, arg2):
             for _ in impl.engine.unify(arg1, m):
                 yield False
+    if CALLABLE['shape'] == 'falsy-object':
+        return FalsyCallable(pred, n)
     return pred
+
+
+# what is registered need not be a function: in the 'all-objects' shards every Python predicate is a
+# callable OBJECT that is false in a boolean context (an empty container with a __call__)
+CALLABLE = {'shape': 'function'}
+
+
+class FalsyCallable:
+    def __new__(cls, fn, n):
+        if n == 'n':
+            class Obj(list):
+                def __call__(self, *args):
+                    return fn(*args)
+        elif n == 1:
+            class Obj(list):
+                def __call__(self, arg1):
+                    return fn(arg1)
+        else:
+            class Obj(list):
+                def __call__(self, arg1, arg2):
+                    return fn(arg1, arg2)
+        return Obj()
 
 
 def py_model(name, n):
@@ -319,11 +347,19 @@ def plan(tier):
         sh += [(d, k, n, pi, 'all') for k in range(n)]
     sh += [(d + 1, k, 2 * n, 0, 'core') for k in range(2 * n)]
     sh += [(d, k, n, 0, 'all-file') for k in range(n)]
+    sh += [(d, k, n, 2, 'all-objects') for k in range(n)]
     return sh
 
 
 def run_shard(spec):
     global LOAD_PATH
+    if spec[4] == 'all-objects':
+        LOAD_PATH = None
+        CALLABLE['shape'] = 'falsy-object'
+        try:
+            return _run_shard(spec[:4] + ('all',), via='objects')
+        finally:
+            CALLABLE['shape'] = 'function'
     if spec[4] != 'all-file':
         LOAD_PATH = None
         return _run_shard(spec)
@@ -366,7 +402,7 @@ def _run_shard(spec, via=None):
             acc.skipped[r[1]] += 1
             continue
         if r[0] == 'violation':
-            acc.violation(('file-loads:' if via else '') + r[1], (len(hist), pi, idx), {'hist': list(hist), 'via': via}, r[2], key=(via or '') + str(list(hist)))
+            acc.violation(({'file': 'file-loads:', 'objects': 'callable-objects:'}.get(via, '')) + r[1], (len(hist), pi, idx), {'hist': list(hist), 'via': via}, r[2], key=(via or '') + str(list(hist)))
             continue
         _, states, steps, nontrivial = r
         acc.n['transitions'] += steps
@@ -381,6 +417,13 @@ def _run_shard(spec, via=None):
 
 def replay(case):
     global LOAD_PATH
+    if case.get('via') == 'objects':
+        CALLABLE['shape'] = 'falsy-object'
+        try:
+            r = run_history(tuple(case['hist']), compile_scripts())
+        finally:
+            CALLABLE['shape'] = 'function'
+        return [('callable-objects:' + r[1], r[2])] if r[0] == 'violation' else []
     if case.get('via'):
         import shutil
         import tempfile
